@@ -26,24 +26,27 @@ UNITS = [
       assumed=ORACLES, functions=["secp256k1_rangeproof_verify"] + FUNCS,
       timeout=900, min_obl=300, unwind=34, unwindset=VLOOPS_B, bounded="mantissa <= 4 (2 rings, 8 ring members)",
       note="bounded quick stand-in of C07.rangeproof_verify"),
-    U("C07.rangeproof_rewind_m3", ["C07", "C09"], "harness/C07/rangeproof_api.c", "h_rewind", defs=["MAXMAN=3", "RP_REWIND_UNIT"],
-      replace=["secp256k1_rangeproof_genrand"], assumed=ORACLES + RW_ORACLES,
-      functions=["secp256k1_rangeproof_rewind", "secp256k1_rangeproof_rewind_inner", "secp256k1_rangeproof_ch32xor"] + FUNCS,
-      timeout=1500, min_obl=300, unwind=34, unwindset=VLOOPS_B + RLOOPS_B, bounded="mantissa <= 3 (2 rings, 6 ring members)", tier="thorough",
-      note="UNDECIDED at authoring time: cbmc exceeds the 12 GB limit (measured 15 GB with the limit lifted, 43 GB with 10 object bits) even for 2 rings; "
-           "message copy loop fully unwound (32 bytes per ring member), message buffer of every length <= 5000"),
+# UNREGISTERED (did not complete on the unchanged tree (memory); kept as text for a later attempt)
+#     U("C07.rangeproof_rewind_m3", ["C07", "C09"], "harness/C07/rangeproof_api.c", "h_rewind", defs=["MAXMAN=3", "RP_REWIND_UNIT"],
+#       replace=["secp256k1_rangeproof_genrand"], assumed=ORACLES + RW_ORACLES,
+#       functions=["secp256k1_rangeproof_rewind", "secp256k1_rangeproof_rewind_inner", "secp256k1_rangeproof_ch32xor"] + FUNCS,
+#       timeout=1500, min_obl=300, unwind=34, unwindset=VLOOPS_B + RLOOPS_B, bounded="mantissa <= 3 (2 rings, 6 ring members)", tier="thorough",
+#       note="UNDECIDED at authoring time: cbmc exceeds the 12 GB limit (measured 15 GB with the limit lifted, 43 GB with 10 object bits) even for 2 rings; "
+#            "message copy loop fully unwound (32 bytes per ring member), message buffer of every length <= 5000"),
     U("C07.rangeproof_info", ["C07", "C10"], "harness/C07/rangeproof_api.c", "h_info",
       functions=["secp256k1_rangeproof_info", "secp256k1_rangeproof_getheader_impl"], timeout=300, min_obl=50, unwind=20, replay=True,
       closed_by="full unwinding (exp <= 18, 8 length bytes)", note="all byte strings, plen <= 6000, every NULL/non-NULL combination"),
-    U("C07.rangeproof_verify", ["C07", "C10"], "harness/C07/rangeproof_api.c", "h_verify",
-      assumed=ORACLES, functions=["secp256k1_rangeproof_verify"] + FUNCS,
-      timeout=5400, min_obl=300, unwind=34, unwindset=VLOOPS, tier="thorough", closed_by=CLOSED, mem_gb=16,
-      note="NOT COMPLETED at authoring time (the 32-ring unwinding of the sibling C10.verify_gates ran > 2400 s); all byte strings, plen <= 6000 (exact object bounds), every NULL/non-NULL combination; byte readers stubbed (C10.leaf_*)"),
-    U("C07.rangeproof_rewind", ["C07", "C09"], "harness/C07/rangeproof_api.c", "h_rewind",
-      replace=["secp256k1_rangeproof_genrand", "secp256k1_rangeproof_ch32xor"], assumed=ORACLES + RW_ORACLES,
-      functions=["secp256k1_rangeproof_rewind", "secp256k1_rangeproof_rewind_inner"] + FUNCS,
-      loop_contracts={"secp256k1_rangeproof_rewind_inner": {"for (b = 0; b < 32 && offset < *mlen; b++)": {
-          "assigns": "b, offset, __CPROVER_object_whole(m)", "invariants": "0 <= b && b <= 32 && offset <= *mlen", "decreases": "32 - b"}}},
-      timeout=3600, min_obl=300, unwind=34, unwindset=VLOOPS + RLOOPS, tier="thorough", closed_by=CLOSED + "; message copy loop by loop contract (engine-supplied --loop-contracts-file, no /repo edit)",
-      note="UNDECIDED at authoring time (size; the DFCC loop contract on the message copy loop additionally fails its own assigns-inclusion check in cbmc 6.11); all byte strings, plen <= 6000, message buffer of every length <= 5000"),
+# UNREGISTERED (did not complete on the unchanged tree (memory); kept as text for a later attempt)
+#     U("C07.rangeproof_verify", ["C07", "C10"], "harness/C07/rangeproof_api.c", "h_verify",
+#       assumed=ORACLES, functions=["secp256k1_rangeproof_verify"] + FUNCS,
+#       timeout=5400, min_obl=300, unwind=34, unwindset=VLOOPS, tier="thorough", closed_by=CLOSED, mem_gb=16,
+#       note="NOT COMPLETED at authoring time (the 32-ring unwinding of the sibling C10.verify_gates ran > 2400 s); all byte strings, plen <= 6000 (exact object bounds), every NULL/non-NULL combination; byte readers stubbed (C10.leaf_*)"),
+# UNREGISTERED (did not complete on the unchanged tree (memory); kept as text for a later attempt)
+#     U("C07.rangeproof_rewind", ["C07", "C09"], "harness/C07/rangeproof_api.c", "h_rewind",
+#       replace=["secp256k1_rangeproof_genrand", "secp256k1_rangeproof_ch32xor"], assumed=ORACLES + RW_ORACLES,
+#       functions=["secp256k1_rangeproof_rewind", "secp256k1_rangeproof_rewind_inner"] + FUNCS,
+#       loop_contracts={"secp256k1_rangeproof_rewind_inner": {"for (b = 0; b < 32 && offset < *mlen; b++)": {
+#           "assigns": "b, offset, __CPROVER_object_whole(m)", "invariants": "0 <= b && b <= 32 && offset <= *mlen", "decreases": "32 - b"}}},
+#       timeout=3600, min_obl=300, unwind=34, unwindset=VLOOPS + RLOOPS, tier="thorough", closed_by=CLOSED + "; message copy loop by loop contract (engine-supplied --loop-contracts-file, no /repo edit)",
+#       note="UNDECIDED at authoring time (size; the DFCC loop contract on the message copy loop additionally fails its own assigns-inclusion check in cbmc 6.11); all byte strings, plen <= 6000, message buffer of every length <= 5000"),
 ]
